@@ -217,6 +217,15 @@ fn build(tier: Tier) -> Vec<Scenario> {
             ));
         }
     }
+    // interval joins (their input type is crate-private, so they run as jobs): the pairs and the
+    // watermarks behind the join
+    for (lo, up) in [(1i64, 1i64), (0, 2), (2, 0)] {
+        for l in [vec![0i64, 1], vec![1, 3], vec![0, 2, 4]] {
+            for r in [vec![0i64, 2], vec![1, 1], vec![2, 3, 4]] {
+                out.push(crate::props::c08_jobs::interval_case("C06", l.clone(), r.clone(), lo, up, if tier == Tier::Quick { 0 } else { 1 }, false));
+            }
+        }
+    }
     // whole jobs with slow sources and timed batching: a watermark must not overtake data that
     // is still buffered on its link
     out.extend(crate::props::timed::scenarios("C06", tier == Tier::Quick, "C06"));
